@@ -16,7 +16,10 @@ GhtInner<Head, Node>` blocks, which call `Node`'s methods.
 * Leaf storage: `Kind.set` is `VariadicHashSet` (insert is a no-op on a present tuple),
   `Kind.bag` stands for the two multisets (`VariadicCountedHashSet`,
   `VariadicColumnMultiset`), whose iteration is observed up to order only.
-* `forced` is the leaf's COLT flag; it takes part in the derived `PartialEq` of `GhtLeaf`.
+* `forced` is the leaf's COLT flag.  Since /repo `fix: GHT ==/partial_cmp …` (findings F7, F22) the
+  `PartialEq` of `GhtLeaf` compares the rows only, and `PartialEq`/`PartialOrd` of `GhtInner`
+  skip children that hold no rows; the definitions `*BeforeFix` keep the old behaviour for the
+  refutation theorems only.
 
 Import-free on purpose: this file is linked into the native driver `hvdrv_ght`.
 -/
@@ -69,8 +72,11 @@ def Leaf.mergeNode (sk : Kind) (l o : Leaf) : Leaf × Bool :=
   let r := stExtend sk l.rows o.rows
   (⟨r, l.forced⟩, decide (l.rows.length < r.length))
 
-/-- derived `PartialEq` of `GhtLeaf`: `elements == elements && forced == forced` -/
-def Leaf.eq (a b : Leaf) : Bool := hsEq a.rows b.rows && (a.forced == b.forced)
+/-- `PartialEq for GhtLeaf`: `self.elements == other.elements` (`forced` is COLT bookkeeping) -/
+def Leaf.eq (a b : Leaf) : Bool := hsEq a.rows b.rows
+
+/-- BEFORE the fix (F22): the derived `PartialEq`, `elements == elements && forced == forced` -/
+def Leaf.eqBeforeFix (a b : Leaf) : Bool := hsEq a.rows b.rows && (a.forced == b.forced)
 
 /-- `PartialOrd for GhtLeaf` -/
 def Leaf.cmp (a b : Leaf) : Option Ordering :=
@@ -106,8 +112,25 @@ and call `merge_node` on an occupied entry). -/
 def innerMerge (mn : α → α → α × Bool) (self other : List (Key × α)) : List (Key × α) × Bool :=
   other.foldl (fun acc kv => let r := mergeChild mn kv.1 kv.2 acc.1; (r.1, acc.2 || r.2)) (self, false)
 
-/-- `PartialEq for GhtInner` -/
-def innerEq (ceq : α → α → Bool) (a b : List (Key × α)) : Bool :=
+/-- the children that hold rows: `children.iter().filter(|(_, node)| has_rows(node))`.  A lookup
+`children.get(k).filter(has_rows)` is a lookup in this list (keys are distinct). -/
+def liveKids (ne : α → Bool) (cs : List (Key × α)) : List (Key × α) := cs.filter fun kc => ne kc.2
+
+/-- the body of `PartialEq for GhtInner` over the children that hold rows: same count, and every
+`(head, this_node)` has an `other_node` with `this_node == other_node` -/
+def innerEqCore (ceq : α → α → Bool) (a b : List (Key × α)) : Bool :=
+  if a.length != b.length then false
+  else a.all fun kc =>
+    match b.lookup kc.1 with
+    | none => false
+    | some o => ceq kc.2 o
+
+/-- `PartialEq for GhtInner`; `ne` is `has_rows` of the child type -/
+def innerEq (ne : α → Bool) (ceq : α → α → Bool) (a b : List (Key × α)) : Bool :=
+  innerEqCore ceq (liveKids ne a) (liveKids ne b)
+
+/-- BEFORE the fix (F7): `PartialEq for GhtInner` counted and compared every child -/
+def innerEqBeforeFix (ceq : α → α → Bool) (a b : List (Key × α)) : Bool :=
   if a.length != b.length then false
   else (a.map (·.1)).all fun head =>
     match b.lookup head with
@@ -132,8 +155,9 @@ def cmpLoop (ccmp : α → α → Option Ordering) (a b : List (Key × α)) :
     | none, some _ => cmpLoop ccmp a b ks (sg, true)
     | none, none => cmpLoop ccmp a b ks (sg, og)
 
-/-- `PartialOrd for GhtInner` (after fix 2ae3875: `(true, true) => None`) -/
-def innerCmp (ccmp : α → α → Option Ordering) (a b : List (Key × α)) : Option Ordering :=
+/-- the body of `PartialOrd for GhtInner` (after fix 2ae3875: `(true, true) => None`) over the children
+that hold rows (BEFORE the F7 fix: over all children) -/
+def innerCmpCore (ccmp : α → α → Option Ordering) (a b : List (Key × α)) : Option Ordering :=
   if a.isEmpty && b.isEmpty then some .eq
   else
     match cmpLoop ccmp a b (a.map (·.1) ++ b.map (·.1)) (false, false) with
@@ -142,6 +166,10 @@ def innerCmp (ccmp : α → α → Option Ordering) (a b : List (Key × α)) : O
     | some (false, true) => some .lt
     | some (false, false) => some .eq
     | some (true, true) => none
+
+/-- `PartialOrd for GhtInner`; `ne` is `has_rows` of the child type -/
+def innerCmp (ne : α → Bool) (ccmp : α → α → Option Ordering) (a b : List (Key × α)) : Option Ordering :=
+  innerCmpCore ccmp (liveKids ne a) (liveKids ne b)
 
 /-- `GhtNodeKeyedBimorphism::call`: for every head of `b` that `a` also has, the child is
 `f(a[head], b[head])` (also when that result is empty). -/
@@ -218,15 +246,28 @@ def gmerge (sk : Kind) : (n : Nat) → Ght n → Ght n → Ght n × Bool
   | 0, a, b => Leaf.mergeNode sk a.toLeaf b.toLeaf
   | n + 1, a, b => innerMerge (gmerge sk n) a.kids b.kids
 
+/-- `has_rows`: `node.recursive_iter().next().is_some()` -/
+def hasRows (n : Nat) (t : Ght n) : Bool := !(grows n t).isEmpty
+
 /-- `PartialEq` -/
 def geq : (n : Nat) → Ght n → Ght n → Bool
   | 0, a, b => Leaf.eq a.toLeaf b.toLeaf
-  | n + 1, a, b => innerEq (geq n) a.kids b.kids
+  | n + 1, a, b => innerEq (hasRows n) (geq n) a.kids b.kids
 
 /-- `PartialOrd::partial_cmp` -/
 def gcmp : (n : Nat) → Ght n → Ght n → Option Ordering
   | 0, a, b => Leaf.cmp a.toLeaf b.toLeaf
-  | n + 1, a, b => innerCmp (gcmp n) a.kids b.kids
+  | n + 1, a, b => innerCmp (hasRows n) (gcmp n) a.kids b.kids
+
+/-- BEFORE the fix (F7, F22): `PartialEq` -/
+def geqBeforeFix : (n : Nat) → Ght n → Ght n → Bool
+  | 0, a, b => Leaf.eqBeforeFix a.toLeaf b.toLeaf
+  | n + 1, a, b => innerEqBeforeFix (geqBeforeFix n) a.kids b.kids
+
+/-- BEFORE the fix (F7): `PartialOrd::partial_cmp` -/
+def gcmpBeforeFix : (n : Nat) → Ght n → Ght n → Option Ordering
+  | 0, a, b => Leaf.cmp a.toLeaf b.toLeaf
+  | n + 1, a, b => innerCmpCore (gcmpBeforeFix n) a.kids b.kids
 
 /-- `IsBot::is_bot` -/
 def gisBot : (n : Nat) → Ght n → Bool
